@@ -53,6 +53,7 @@ type Exec struct {
 	addrSeen  map[int]bool
 	kindIDs   map[string]int
 	typeIDs   map[string]int
+	ifx       *ifaceFacts
 	strIDs    map[string]int
 	entry     *State
 	entryEnv  map[string]SV
@@ -381,7 +382,10 @@ func (ex *Exec) uf(name string, ret *Sort, args ...*Term) *Term {
 	return ex.ts.App(ex.ts.Fun(name, ret, sorts...), args...)
 }
 
-func (ex *Exec) typeID(t types.Type) *Term { return ex.typeIDOfKey(typeKey(t)) }
+func (ex *Exec) typeID(t types.Type) *Term {
+	ex.noteConcreteType(t)
+	return ex.typeIDOfKey(typeKey(t))
+}
 
 func (ex *Exec) typeIDOfKey(k string) *Term {
 	if _, ok := ex.typeIDs[k]; !ok {
